@@ -24,7 +24,7 @@ impl Prop for C06 {
     fn plan(&self, tier: Tier) -> Plan {
         match tier {
             Tier::Quick => Plan { runs: 12288, time_box_s: None, isolation: Isolation::Threads },
-            Tier::Thorough => Plan { runs: 400_000, time_box_s: Some(480), isolation: Isolation::Threads },
+            Tier::Thorough => Plan { runs: 4_000_000, time_box_s: Some(480), isolation: Isolation::Threads },
         }
     }
     fn generate(&self, rc: &RunCtx) -> WriterCase {
